@@ -28,10 +28,10 @@ def _obs(obj, base):
 
 def make_base(base, calls):
     if base == "lam":
-        return eval("lambda x: (CALLS.append(1), x * 2 + 1)[1]", {"CALLS": calls})
+        return eval("lambda x, shift=0.0: (CALLS.append(1), x * 2 + 1 + shift)[1]", {"CALLS": calls})
     if base == "def":
         ns = {"CALLS": calls}
-        exec("def fbase(x):\n    CALLS.append(1)\n    return x * 2 + 1\n", ns)
+        exec("def fbase(x, shift=0.0):\n    CALLS.append(1)\n    return x * 2 + 1 + shift\n", ns)
         return ns["fbase"]
     return EXPR
 
@@ -51,11 +51,11 @@ def gen_ops(rng):
             ops.append({"op": o, "s": s, "n": "n1"} if o == "N" else {"op": o, "s": s})
             wrapped = True
             for _ in range(rng.choice([0, 0, 1, 2, 3])):
-                ops.append({"op": "Call", "s": s, "arg": rng.choice([1, 2, 3, 4, 5, 6, 5, 6, 7, 8, 9, 1, 7]), "fresh": rng.random() < 0.5})
+                ops.append({"op": "Call", "s": s, "arg": rng.choice([1, 2, 3, 4, 5, 6, 5, 6, 7, 8, 9, 1, 7, 10, 10, 1]), "fresh": rng.random() < 0.5})
         if rng.random() < 0.5:
             ops.append({"op": "N", "s": s, "n": "n2"})  # a second name (raises iff one was given)
         for _ in range(rng.choice([1, 2, 4])):
-            ops.append({"op": "Call", "s": s, "arg": rng.choice([1, 2, 3, 4, 5, 6, 5, 6, 7, 8, 9, 1, 7]), "fresh": rng.random() < 0.5})
+            ops.append({"op": "Call", "s": s, "arg": rng.choice([1, 2, 3, 4, 5, 6, 5, 6, 7, 8, 9, 1, 7, 10, 10, 1]), "fresh": rng.random() < 0.5})
     ops.append({"op": "EqW", "s": 1})
     return ops
 
@@ -72,7 +72,7 @@ def record_one(job):
     slots = {1: f, 2: f}
     # two scalars, two arrays, and -1.0 / -2.0 (distinct numbers whose Python hashes coincide)
     args = {1: 1.0, 2: 2.0, 3: np.array([1.0, 2.0]), 4: np.array([1.0, 3.0]), 5: -1.0, 6: -2.0,
-            7: np.array([]), 8: np.array([1.0]), 9: np.array([1.0, 1.0])}
+            7: np.array([]), 8: np.array([1.0]), 9: np.array([1.0, 1.0]), 10: ("two", 1.0, 4.0)}
     events = []
     for op in job["ops"]:
         ev = dict(op)
@@ -91,8 +91,10 @@ def record_one(job):
                     a = a.copy()
                 if not isinstance(slots[s], UserFcn):
                     continue
+                if isinstance(a, tuple) and base == "str":
+                    continue        # (a string expression takes the record only)
                 before = len(calls)
-                r = slots[s](a)
+                r = slots[s](a[1], a[2]) if isinstance(a, tuple) else slots[s](a)
                 ev["ret"] = [int(v) for v in np.atleast_1d(r).tolist()]
                 ev["ncalls"] = len(calls) - before
             elif op["op"] == "EqW":
